@@ -273,6 +273,17 @@ def run_lines(exe, lines, shards=NPROC, timeout=3000, env=None):
     """Feed case lines to exe (one result line per case), sharded over processes."""
     if not lines:
         return []
+    # K lines are expected to be able to kill the process (stack depth): one process each, so that a crash does not send a whole
+    # shard into the one-case-per-process search below
+    solo = [i for i, l in enumerate(lines) if l.startswith("K ")]
+    if solo and len(solo) < len(lines):
+        rest = [i for i, l in enumerate(lines) if not l.startswith("K ")]
+        res = [None] * len(lines)
+        for i, o in zip(rest, run_lines(exe, [lines[i] for i in rest], shards, timeout, env)):
+            res[i] = o
+        for i in solo:
+            res[i] = run_lines(exe, [lines[i]], 1, timeout, env)[0]
+        return res
     shards = max(1, min(shards, (len(lines) + 63) // 64))
     chunks = [lines[i::shards] for i in range(shards)]
 
